@@ -46,6 +46,11 @@ def engines_dir():
                 s2 = s.replace('path = "/repo"', 'path = "%s"' % REPO).replace('path = "/repo/', 'path = "%s/' % REPO)
                 if s2 != s:
                     open(p, "w").write(s2)
+    # px reads the macro sources through a symlink
+    link = os.path.join(src, "px", "src", "msrc")
+    if os.path.islink(link) or os.path.exists(link):
+        os.remove(link)
+    os.symlink(os.path.join(REPO, "macros", "src"), link)
     return src, os.path.join(base, "target")
 
 
